@@ -118,6 +118,9 @@ func runOne(pi int, p Program, schedule []int) Trace {
 		})
 	}
 	exec := func(op Op) []any {
+		if r, ok := execExtra(m, op); ok {
+			return r
+		}
 		switch op.M {
 		case "store":
 			m.Store(op.K, op.V)
@@ -311,12 +314,66 @@ func Run(jobPath, out string) {
 
 // Stress runs free-running bursts (no scheduler): nThreads goroutines x 2 random operations on one
 // fresh map/cache per burst, stamped with a global atomic counter at call and return.
+// snap is a whole-map result as one number (keys 1..3, values < 1024), as Snap in SeqMap.tla
+func snap(d map[int]int) int {
+	pow := []int{1, 1024, 1048576}
+	s := 0
+	for k, v := range d {
+		if k >= 1 && k <= 3 {
+			s += v * pow[k-1]
+		}
+	}
+	return s
+}
+
+// execExtra: the ...WithFunc variants and the whole-map operations of sync.Map
+func execExtra(m *coapsync.Map[int, int], op Op) ([]any, bool) {
+	switch op.M {
+	case "storef":
+		m.StoreWithFunc(op.K, func() int { return op.V })
+		return []any{0, false}, true
+	case "loadf":
+		seen := 0
+		v, ok := m.LoadWithFunc(op.K, func(x int) int { seen = x; return x })
+		if ok {
+			return []any{seen, ok}, true
+		}
+		return []any{v, ok}, true
+	case "replacef":
+		old, loaded := m.ReplaceWithFunc(op.K, func(o int, l bool) (int, bool) { return op.V, op.V == 0 })
+		if !loaded {
+			old = 0
+		}
+		return []any{old, loaded}, true
+	case "deletef":
+		seen, called := 0, false
+		m.DeleteWithFunc(op.K, func(x int) { seen, called = x, true })
+		return []any{seen, called}, true
+	case "ladf":
+		seen := 0
+		v, ok := m.LoadAndDeleteWithFunc(op.K, func(x int) int { seen = x; return x })
+		if ok {
+			return []any{seen, ok}, true
+		}
+		return []any{v, ok}, true
+	case "ladall":
+		return []any{snap(m.LoadAndDeleteAll()), false}, true
+	case "copy":
+		return []any{snap(m.CopyData()), false}, true
+	case "range2":
+		d := map[int]int{}
+		m.Range2(func(k, v int) bool { d[k] = v; return true })
+		return []any{snap(d), false}, true
+	}
+	return nil, false
+}
+
 func Stress(out string, bursts int) {
 	w := rec.Create(out)
 	defer w.Close()
 	seed := uint64(rec.Seed())*2654435761 + 12345
 	next := func() uint64 { seed = seed*6364136223846793005 + 1442695040888963407; return seed >> 33 }
-	mapM := []string{"store", "load", "los", "losf", "delete", "lad", "replace", "length", "los", "los"}
+	mapM := []string{"store", "load", "los", "losf", "delete", "lad", "replace", "length", "los", "los", "storef", "loadf", "replacef", "deletef", "ladf", "ladall", "copy", "range2"}
 	cacheM := []string{"clos", "cload", "cdelete", "sweep", "clos", "clos", "sweep"}
 	for b := 0; b < bursts; b++ {
 		p := Program{Keys: []int{1, 2}}
@@ -373,6 +430,9 @@ func runFree(p Program) Trace {
 		})
 	}
 	exec := func(op Op) []any {
+		if r, ok := execExtra(m, op); ok {
+			return r
+		}
 		switch op.M {
 		case "store":
 			m.Store(op.K, op.V)
